@@ -47,7 +47,7 @@ def run_solver(name, cmd, path, timeout):
         # deductive verifiers.  Timeouts / cancellations / resource limits stay undecided.
         m = re.search(r':reason-unknown\s+"([^"]*)"', out)
         reason = m.group(1) if m else ''
-        if 'incomplete' in reason and 'timeout' not in reason and 'canceled' not in reason:
+        if 'incomplete' in reason and not any(w in reason for w in ('timeout', 'canceled', 'resource', 'memout', 'max.')):
             return 'sat-candidate', out, time.time() - t0
         return 'unknown', out, time.time() - t0
     if first in ('sat', 'unsat'):
@@ -176,10 +176,16 @@ def _discharge_text(ob, text, workdir, timeout, second_opinion=False, only_first
         # vacuity canaries: satisfiability under quantified axioms is rarely decidable; short budget, one solver
         solvers = SOLVERS[:1]
         timeout = min(timeout, 4)
+    if not only_first and ob.expect == 'unsat' and not second_opinion:
+        # the portfolio pass: z3 4.8 first - on an unprovable obligation its E-matching saturates within a second with
+        # reason-unknown "(incomplete quantifiers)" (the classic "verification failed" answer); the others then get a
+        # reduced budget to find a proof the older solver missed
+        solvers = [SOLVERS[1], SOLVERS[0]] + SOLVERS[2:]
     for name, cmd in solvers:
         if name.startswith('cvc5') and '(lambda' in text:
             continue
-        v, out, secs = run_solver(name, cmd, path, timeout)
+        budget = timeout if not getattr(r, 'candidate', None) else min(timeout, 20)
+        v, out, secs = run_solver(name, cmd, path, budget)
         r.tried.append((name, v, round(secs, 3)))
         r.seconds += secs
         if v == 'sat-candidate' and ob.expect == 'unsat':
